@@ -174,10 +174,16 @@ func trieStep(c c15Case, probes []string) (key string, out core.Outcome) {
 				return
 			}
 		}
-		if f := observeTrie(t2, m2, probes, "(observed pass) before "+string(c.Op)); f != "" {
+		stoppedRun := func(stop int) {
+			n := 0
+			t2.ForEach(func([]byte) bool { n++; return n < stop })
+		}
+		stoppedRun(1) // a consumer that stops ForEach early (C18) is an observer too
+		if f := observeTrie(t2, m2, probes, "(observed pass) after a ForEach stopped at its first item, before "+string(c.Op)); f != "" {
 			fail = f
 			return
 		}
+		stoppedRun(2)
 		if _, f := trieKey(t2); f != "" {
 			fail = f
 			return
@@ -483,7 +489,7 @@ func runC15(r *core.Run) {
 			return out
 		}
 		m := core.Begin(r, name, core.Opts{
-			Rule:   "explicit-state BFS: every reachable trie state x every Add(w)/Delete(w), w over the alphabet up to the word length; each transition replayed on a fresh real trie next to the set model and observed (Delete result, Has on all probes, ForEach multiset, argument aliasing), once with observers only after the operation and once with Has/ForEach/MarshalJSON also called before it and in the middle of the history (both passes must reach the same state); once per state the JSON-rebuild differential incl. every operation on the rebuilt copy; non-trivial = history length >= 1",
+			Rule:   "explicit-state BFS: every reachable trie state x every Add(w)/Delete(w), w over the alphabet up to the word length; each transition replayed on a fresh real trie next to the set model and observed (Delete result, Has on all probes, ForEach multiset, argument aliasing), once with observers only after the operation and once with Has/ForEach/MarshalJSON and ForEach runs stopped after 1 and 2 items also called before it and in the middle of the history (both passes must reach the same state); once per state the JSON-rebuild differential incl. every operation on the rebuilt copy; non-trivial = history length >= 1",
 			Bounds: fmt.Sprintf("alphabet %q, words up to %d, %d operations, probes up to length %d", cf.sigma, cf.d, len(ops), cf.d+1),
 		}, check)
 		if m == nil {
